@@ -340,6 +340,7 @@ def scn(sym, cov, props, D, T=2, cancel=None, cancel2=None, toggle=None, stubbor
         cur = dl[i]
         changes = [x for x in timeline if x[2] == "deadline" and x[3] == i]
         fire_t, amb = None, False
+        n_applied = 0  # reassignments applied before the (reference) firing
         for ch in changes + [None]:
             seg_end = ch[1] if ch is not None else b_t
             if cur <= seg_start:
@@ -356,7 +357,9 @@ def scn(sym, cov, props, D, T=2, cancel=None, cancel2=None, toggle=None, stubbor
                 break
             cur = ch[4]
             seg_start = ch[1]
+            n_applied += 1
         ref_fire[i] = (fire_t, amb)
+        state.setdefault("changes_before_fire", {})[i] = (n_applied, len(changes))
     # ---- per-operation clauses (only explicit cancels are in the timeline: skipped when deadlines are in play) ----
     for o in ops:
         L = o["level"]
@@ -514,7 +517,8 @@ def scn(sym, cov, props, D, T=2, cancel=None, cancel2=None, toggle=None, stubbor
             if bool(e["caught"]) != bool(fired and e["raised"] == "cancel" and not e["passed"]):
                 bad("C06", "move_on-cancelled_caught-wrong", {"caught": e["caught"], "fired": fired})
         # (the statement's proviso excludes a deadline reassigned AFTER it has fired; reassignments before that count)
-        changed_after_fire = rf is not None and any(x[2] == "deadline" and x[3] == i and x[1] >= rf for x in timeline)
+        nb_, nall_ = state.get("changes_before_fire", {}).get(i, (0, 0))
+        changed_after_fire = rf is not None and nall_ > nb_
         if helper in ("fail_after", "fail_at") and i == D - 1 and not changed_after_fire:
             if bool(e["timeout_error"]) != bool(fired and e["raised"] == "cancel" and not e["passed"]):
                 bad("C06", "fail-helper-timeouterror-wrong", {"timeout_error": e["timeout_error"], "fired": fired, "passed": e["passed"]})
